@@ -84,6 +84,17 @@ def run (op : String) (a : Json) : Option (Except String Json) :=
   | "names.next_available_name" => some do
       let n ← getStr a "name"; let r ← getStrs a "inner"
       pure <| optStrJson (nextAvailableName n r)
+  | "names.e2e_fields" => some do
+      -- what the whole pipeline must produce for one complexType / one enumeration:
+      -- rename_duplicate_attributes, then field_name (constant_name for enumerations)
+      let xs ← getArr a "attrs"
+      let attrs ← xs.mapM getAttr
+      let out := (renameDuplicateAttrs attrs).map (fun x =>
+        if x.isEnumeration then constantName e u constantConv x.name else fieldName e u fieldConv x.name)
+      pure <| ok (jList (fun r => match r with
+        | .ok v => jStr v
+        | .recursionError => Json.str "<RecursionError>"
+        | .indexError => Json.str "<IndexError>") out)
   | "names.rename_classes" => some do
       let style ← getStr a "style"
       let xs ← getArr a "classes"
